@@ -506,7 +506,7 @@ class Syntax(JupyterMixin):
         if self.line_range:
             lines = lines[line_offset:end_line]
 
-        if self.indent_guides and not options.ascii_only:
+        if self.indent_guides and not options.ascii_only and lines:
             style = (
                 self._get_base_style()
                 + self._theme.get_style_for_token(Comment)
